@@ -456,6 +456,121 @@ def c20(run, vc):
                       assumptions=["get_crypto_rng hook (--cfg blsful_verif) reports a fingerprint of a clone of each generator", "OS entropy is modelled as an unbounded pool of distinct seeds", "hash prefixes (96 bits) stand for the observables"])
 
 
+# ------------------------------------------------------------------------------------ C18 / C19 (Interop)
+def _interop_trace(run, vc, events, name, label):
+    tp = os.path.join(vc.WORK, name + ".trace.ndjson")
+    with open(tp, "w") as f:
+        for e in events:
+            f.write(json.dumps(e) + "\n")
+    ok, at, ev, dt, states = vc.validate_trace("Trace_Interop", tp, name)
+    execs = sum(e.get("count", 1) for e in events if e["ev"] != "Reset")
+    run.stages.append({"stage": "trace", "spec": "Trace_Interop", "what": label, "events": len(events), "executions_behind_them": execs, "accepted": ok, "tlc_wall_s": round(dt, 1)})
+    run.states += states
+    run.transitions += states
+    if ok:
+        run.traces += 1
+        run.trace_events += execs
+        run.samples.append({"trace_excerpt": events[1:4]})
+    else:
+        keep = os.path.join(vc.REPLAYS, run.prop)
+        os.makedirs(keep, exist_ok=True)
+        import shutil
+        kp = os.path.join(keep, name + "_seed%d.ndjson" % vc.SEED)
+        shutil.copy(tp, kp)
+        run.violations.append(("trace", {"why": "%s: rejected by Trace_Interop at event %d: %s" % (label, at, json.dumps(ev)[:400]), "event": ev, "at": at, "trace": kp}))
+    return ok
+
+
+def _corpus_check(vc, corpus, tables, name, build="release", feature="blst"):
+    op = os.path.join(vc.WORK, name + ".ndjson")
+    rc, out, dt = vc.sh([vc.bin_path(build, feature), "corpus-check", "--in", corpus, "--tables", tables, "--out", op], cwd=vc.WORK, timeout=3000, check=False)
+    if rc != 0:
+        raise vc.ToolError("corpus-check failed: " + out[-2000:])
+    return [json.loads(l) for l in open(op)]
+
+
+def c18(run, vc):
+    tier = run.tier
+    tables = _prep(run, vc)
+    # (a) the golden corpus of the pinned release replayed into the current tree
+    evs = _corpus_check(vc, os.path.join(vc.ROOT, "golden", "corpus.ndjson"), tables, "c18_golden")
+    kinds = {e["what"].split("/")[0] for e in evs if e["ev"] == "Golden"}
+    for need in ("type", "sig", "signcrypt", "timelock", "pok", "pokts", "elgamal", "shares", "aggregate", "det"):
+        if need not in kinds:
+            raise vc.ToolError("vacuity: golden corpus has no %s entries" % need)
+    run.extra_cov["golden_entry_classes"] = len(evs) - 1
+    _interop_trace(run, vc, evs, "c18_golden", "golden corpus of the pinned release consumed by the current tree")
+    # (b) library <-> independent implementation, both directions, for the library's own constructions
+    for module, cfg, keep, label in (
+        ("MC_SignCrypt", "MC_SignCrypt_%s.cfg" % tier, lambda v: v["act"] == "Seal" or (v["act"] in ("IsValid", "Decrypt") and not v["touched"]), "signcryption seal/open in both directions"),
+        ("MC_TimeLock", "MC_TimeLock_%s.cfg" % tier, lambda v: v["act"] == "TLSeal" or (v["act"] == "TLDecrypt" and not v["touched"] and v["rightsig"]), "time-lock seal/open in both directions"),
+        ("MC_ElGamal", "MC_ElGamal_%s.cfg" % tier, lambda v: v["act"] in ("EGEncrypt", "EGDecrypt") or (v["act"] == "EGVerify" and not v["touched"]), "ElGamal transcript: library-made proofs verified by the reference and reference-made proofs by the library"),
+        ("MC_Pok", "MC_Pok_%s.cfg" % tier, lambda v: v["pert"] == "none" and v.get("y") != "zero" and v["scheme"] != "Aug", "proof-of-knowledge equation and timestamp challenge derivation (Basic / PoP; the MessageAugmentation incompleteness is C10's recorded finding D6)"),
+    ):
+        r, bad = _tlc_stage(run, vc, module, cfg, [], timeout=7200)
+        if bad:
+            return run.finish()
+        vecs = [v for v in r["vectors"] if keep(v)]
+        if not vecs:
+            raise vc.ToolError("vacuity: no vectors for " + label)
+        run.samples.append(vecs[0])
+        s = vc.replay(vecs, "c18_" + module, tables, profiles="5")
+        run.add_replay(s, label, vecs, lambda v: True)
+    return run.finish(rule="(a) every entry of the golden corpus recorded from the pinned release (every type x group x variant x value class in three encodings; signatures, ciphertexts, proofs, share sets, aggregates with the results their consumers gave; deterministic operations) replayed into the current tree, class-deduplicated, validated by TLC as Consume_current(Produce_pinned(x)) = Consume_pinned(x); (b) every honest seal / prove transition of the SignCrypt, TimeLock, ElGamal and Pok models executed with the independent implementation opening what the library seals and the library opening what the independent implementation seals",
+                      assumptions=["golden corpus generated once from 4bdca94 (golden/README.md)", "independent implementation = spec tables + bls12_381_plus + SHA-2/SHA-3/merlin primitives + hand-written HKDF and framing"])
+
+
+def c19(run, vc):
+    tier = run.tier
+    tables = _prep(run, vc)
+    vc.log("[C19] building the harness with the pure-Rust backend")
+    vc.build_harness("release", "rust")
+    corp = {}
+    for node, feat in (("blst", "blst"), ("rust", "rust")):
+        cp = os.path.join(vc.WORK, "c19_corpus_%s.ndjson" % node)
+        rc, out, dt = vc.sh([vc.bin_path("release", feat), "corpus", "--tables", tables, "--out", cp], cwd=vc.WORK, timeout=3000, check=False)
+        if rc != 0:
+            raise vc.ToolError("corpus generation failed on %s: %s" % (node, out[-2000:]))
+        corp[node] = cp
+    import hashlib
+    events = [{"ev": "Reset"}]
+    ndet = 0
+    for node in ("blst", "rust"):
+        for line in open(corp[node]):
+            e = json.loads(line)
+            k = e["kind"]
+            fields = {"type": ("bytes", "bare", "json"), "sig": ("pk", "sig", "verdict"), "pop": ("pk", "pop", "verdict"), "keygen": ("sk",), "det": ("out",),
+                      "aggregate": ("agg", "multi", "agg_verdict", "multi_verdict"), "shares": ("combined_sig", "equals_whole")}.get(k)
+            if not fields:
+                continue
+            ident = "/".join(str(e.get(x, "")) for x in ("kind", "type", "group", "variant", "vclass", "scheme", "name"))
+            for fld in fields:
+                if k == "shares" and fld == "combined_sig":
+                    continue   # combined from this node's own random share set: equal to the whole-key signature, compared through 'sig'
+                val = json.dumps(e.get(fld))
+                events.append({"ev": "Det", "node": node, "call": ident + "#" + fld, "out": hashlib.sha256(val.encode()).hexdigest()[:24]})
+                ndet += 1
+    run.extra_cov["deterministic_outputs_compared"] = ndet // 2
+    _interop_trace(run, vc, events, "c19_det", "deterministic outputs of the blst-backed and the pure-Rust build")
+    # randomized artefacts of each build consumed by the other
+    cross = [{"ev": "Reset"}]
+    for prod, cons in (("blst", "rust"), ("rust", "blst")):
+        for e in _corpus_check(vc, corp[prod], tables, "c19_cross_%s_%s" % (prod, cons), feature=cons):
+            if e["ev"] == "Golden":
+                cross.append({"ev": "Cross", "kind": e["what"], "group": e["group"], "producer": prod, "consumer": cons, "ok": e["same"], "count": e["count"], "detail": e.get("detail", "")})
+    _interop_trace(run, vc, cross, "c19_cross", "artefacts of each backend consumed by the other")
+    # the SigNet / ElGamal vectors replayed on the pure-Rust build too (verdicts and reference bytes)
+    for module, cfg in (("MC_SigNet", "MC_SigNet_pop_%s.cfg" % tier), ("MC_ElGamal", "MC_ElGamal_%s.cfg" % tier), ("MC_SigNet", "MC_SigNet_multi_%s.cfg" % tier)):
+        r, bad = _tlc_stage(run, vc, module, cfg, [], timeout=7200)
+        if bad:
+            return run.finish()
+        s = vc.replay(r["vectors"], "c19_" + cfg.replace(".cfg", ""), tables, profiles="5", feature="rust")
+        run.add_replay(s, cfg + " replayed on the pure-Rust backend", r["vectors"], lambda v: True)
+    run.samples.append({"det_events": events[1:4]})
+    return run.finish(rule="both feature configurations are built from the current tree; every deterministic output (all encodings of every type x variant x value class, keys from seeds of 6 lengths, seeded random keys / challenges incl. the facade, signatures, PoPs, aggregates of 2..17 signers with verdicts, recombination of a fixed share set, challenges, generators, hash-to-curve / hash-to-scalar outputs incl. a 70 KB message, pairing result bytes, wide scalar reduction) is logged with its hash on both nodes and TLC validates equal-call => equal-output; the randomized artefacts of each build (ciphertexts, proofs, share sets) are consumed by the other build with the recorded result; model vectors replayed on the pure-Rust build",
+                      assumptions=["both builds run on this machine; the blst build uses the assembly backend available here"])
+
+
 # ------------------------------------------------------------------------------------ traces
 def _trace_signet(run, vc, tables, name, events, mix="all"):
     """implementation -> spec: record a random walk of the real library, validate with TLC."""
@@ -464,4 +579,4 @@ def _trace_signet(run, vc, tables, name, events, mix="all"):
     vc.record_and_validate(run, "signet", "Trace_SigNet", name, events, tables, mix=mix)
 
 
-CHECKS = {"C01": c01, "C02": c02, "C06": c06, "C07": c07, "C08": c08, "C09": c09, "C10": c10, "C11": c11, "C12": c12, "C13": c13, "C14": c14, "C15": c15, "C16": c16, "C17": c17, "C20": c20}
+CHECKS = {"C01": c01, "C02": c02, "C06": c06, "C07": c07, "C08": c08, "C09": c09, "C10": c10, "C11": c11, "C12": c12, "C13": c13, "C14": c14, "C15": c15, "C16": c16, "C17": c17, "C18": c18, "C19": c19, "C20": c20}
